@@ -45,7 +45,7 @@ var litStrings = []string{"a", "b", "abc", "x", "foo", "a b", "", "s*", "?", "1"
 
 func (g *ExprGen) litScalar(like *ref.V) *ref.V {
 	r := g.R
-	if like != nil && like.IsScalar() && r.IntN(10) == 0 {
+	if like != nil && like.IsScalar() && r.IntN(6) == 0 {
 		// the same text under another type: 1 vs "1", true vs "true", null vs "null"
 		switch like.K {
 		case ref.Int, ref.Bool, ref.Null:
@@ -268,7 +268,7 @@ func (g *ExprGen) Pred(in []*ref.V, depth int) *ref.Expr {
 			return ref.Pipe(g.Pred(in, depth-1), ref.Fn0("not"))
 		}
 	}
-	if r.IntN(25) == 0 {
+	if r.IntN(12) == 0 {
 		// two integers that differ but are the same float64 (beyond 2^53), compared exactly
 		a := bigNeighbours[r.IntN(len(bigNeighbours))]
 		b := a
